@@ -9,8 +9,8 @@
 #include "ossl_ref.h"
 #include "modes_ref.h"
 
-static uint8_t PT[256], KEY[48], NONCE[16], AAD[32];
-static void fill(void) { for (int i = 0; i < 256; i++) PT[i] = (uint8_t)(i * 29 + 7); for (int i = 0; i < 48; i++) KEY[i] = (uint8_t)(0x3c + 5 * i + vh_seed); for (int i = 0; i < 16; i++) NONCE[i] = (uint8_t)(0x91 + 3 * i); for (int i = 0; i < 32; i++) AAD[i] = (uint8_t)(0xa0 ^ (i * 9)); }
+static uint8_t PT[256], KEY[48], NONCE[16], AAD[48];
+static void fill(void) { for (int i = 0; i < 256; i++) PT[i] = (uint8_t)(i * 29 + 7); for (int i = 0; i < 48; i++) KEY[i] = (uint8_t)(0x3c + 5 * i + vh_seed); for (int i = 0; i < 16; i++) NONCE[i] = (uint8_t)(0x91 + 3 * i); for (int i = 0; i < 48; i++) AAD[i] = (uint8_t)(0xa0 ^ (i * 9)); }
 
 typedef struct { const char *name; int streaming; size_t noncelen; int varnonce; /* nonce length is a parameter */
 	/* seal: body = ct||tag (streaming) or ct with tag separate; returns 1 */
@@ -53,13 +53,13 @@ static scheme_t SCH[] = {
 	{ "sm4-gcm-stream", 1, 12, 1, sgcm_seal, sgcm_open }, { "sm4-cbc-sm3-hmac", 1, 16, 0, cbch_seal, cbch_open }, { "sm4-ctr-sm3-hmac", 1, 16, 0, ctrh_seal, ctrh_open },
 };
 #define NSCH 6
-static const size_t ML_Q[] = { 0, 1, 17 }, ML_T[] = { 0, 1, 15, 16, 17, 33 }, AL[] = { 0, 1, 20 };
+static const size_t ML_Q[] = { 0, 1, 17 }, ML_T[] = { 0, 1, 15, 16, 17, 33 }, AL[] = { 0, 1, 20, 15, 16, 17, 32 }; /* incl. block-aligned AAD: the last AAD block of GHASH / CBC-MAC is then a full block */
 
 static void expect_reject(const scheme_t *s, const char *field, const char *kind, int r, size_t n, size_t al, size_t tl, size_t pos, size_t cut) {
 	if (r == 1) { char key[160]; snprintf(key, sizeof key, "C05:%s:%s-%s-accepted", s->name, field, kind); vh_viol(key, "\"msglen\":%zu,\"aadlen\":%zu,\"taglen\":%zu,\"pos\":%zu,\"cut\":%zu", n, al, tl, pos, cut); }
 }
 static void one_sealed(const scheme_t *s, size_t n, size_t al, size_t tl, size_t nl) {
-	static uint8_t ct[400], tag[32], pt[400], m[400], nn[16], aa[32]; size_t cl = 0, pl = 0; char key[160];
+	static uint8_t ct[400], tag[32], pt[400], m[400], nn[16], aa[48]; size_t cl = 0, pl = 0; char key[160];
 	memset(tag, 0, sizeof tag);
 	if (s->seal(NONCE, nl, AAD, al, PT, n, tl, ct, &cl, tag) != 1) { snprintf(key, sizeof key, "C05:%s:seal-failed", s->name); vh_viol(key, "\"msglen\":%zu,\"aadlen\":%zu,\"taglen\":%zu", n, al, tl); return; }
 	size_t ncuts = s->streaming ? cl + 1 : 1; uint64_t base = vh_hash(s->name, strlen(s->name), n * 1000003 + al * 1009 + tl * 31 + nl);
@@ -89,7 +89,7 @@ static void body(void) {
 	for (int si = 0; si < NSCH; si++) {
 		const scheme_t *s = &SCH[si]; char bn[64]; snprintf(bn, sizeof bn, "tamper-%s", s->name); if (!vh_block_begin(bn)) continue;
 		const size_t *ML = vh_thorough ? ML_T : ML_Q; int nml = vh_thorough ? 6 : 3;
-		for (int mi = 0; mi < nml; mi++) for (int ai = 0; ai < 3; ai++) {
+		for (int mi = 0; mi < nml; mi++) for (int ai = 0; ai < 7; ai++) { if (ai >= 3 && !vh_thorough && mi != 1) continue; /* the block-aligned AAD lengths with one message length in the quick tier */
 			size_t tl0 = 12, tl1 = 16, tstep = vh_thorough ? 1 : 4; if (!strcmp(s->name, "sm4-ccm")) { tl0 = 4; tstep = vh_thorough ? 2 : 6; } if (strstr(s->name, "hmac")) { tl0 = tl1 = 32; }
 			for (size_t tl = tl0; tl <= tl1; tl += tstep) {
 				size_t nls[3] = { s->noncelen, 0, 0 }; int nn = 1; if (s->varnonce && vh_thorough) { if (!strcmp(s->name, "sm4-ccm")) { nls[1] = 7; nls[2] = 13; nn = 3; } else { nls[1] = 1; nls[2] = 16; nn = 3; } }
